@@ -11,11 +11,14 @@ number of read and write ports in any domains, any granularity, any transparency
 all states, all input valuations and all events (any set of clocks changing at once, any reset levels), and the
 run theorem for all finite sequences of them (induction, no bound).
 
-Theorems of this file: `ctor_covers`, `ctor_wf`, `inv_init`, `inv_step`, `write_granules`, `write_data_bit`,
-`oob_write_noop`, `collision_last_wins`, `async_read`, `async_read_beyond_depth`, `sync_read_old_data`,
+Theorems of this file: `ctor_covers`, `ctor_wf`, `ctor_transparency`, `inv_init`, `inv_step`, `write_granules`,
+`write_data_bit`, `oob_write_noop`, `collision_last_wins` (+ `oneDomain_of_single_edge`), `async_read`,
+`async_read_beyond_depth`, `sync_read_old_data`,
 `transparent_read`, `read_beyond_depth`, `read_hold_when_disabled`, `old_reset_clears_read_port`,
 `old_differs_only_under_reset`, `row_access_same_storage`, `row_access_out_of_range`, `model_refines_rows`,
 `values_in_shape`, `observed_values_are_rows`, `model_refines_rows_values`, `model_refines_rows_run`.
+(`exCfg_ctor`, `exWF`, `exInv`, `exInputsOk`, `exOneDomain`, `exNoCollision`, `exReadsInRange`, `exRunOk` are the
+non-vacuity instances on the example configuration, not property theorems.)
 
 Vocabulary. `ibit v i` is bit `i` of the Python integer `v`; a row of the Spec is `toBits width v`.
 `activeWrite c clk inp e k = some w` says that write port `k` has an active edge of its clock at event `e`
